@@ -302,6 +302,12 @@ Definition run (c : sx) : sx :=
       | Some n', Some fl', Some M', Some Mi', Some vecs', Some cs' => run_rot n' fl' M' Mi' vecs' cs'
       | _, _, _, _, _, _ => sx_error 1
       end
+  | L [I 10%Z; yr; ifacs; sq] =>
+      match asMat yr, asListOf asNat ifacs, asVec sq with
+      | Some yr', Some ifacs', Some sq' =>
+          ofList (fun p => ofVeca (hermite_by_ranks (sqfun sq') (sqfun sq') (vget p 0) (vget p 1) ifacs')) yr'
+      | _, _, _ => sx_error 1
+      end
   | L [I 8%Z; nb; data; ys; Gc; g; sq] =>
       match asNat nb, asOVec data, asVec ys, asVec Gc, asVec g, asVec sq with
       | Some nb', Some data', Some ys', Some Gc', Some g', Some sq' => run_fit nb' data' ys' Gc' g' sq'
